@@ -277,6 +277,12 @@ func (ex *Exec) blockIf(st *State, cond *Term, kind string, site ssa.Instruction
 		return
 	}
 	ex.blocks = append(ex.blocks, Event{Kind: kind, PC: And(st.pcTerm(), cond), Pos: ex.pos(site), Case: ex.curCase, Msg: ex.heldLocks(st)})
+	if n := len(ex.rub); n > 0 {
+		// run-until-blocked: the blocked part of the state is parked (snapshot) and resumes after vsRunUntilBlocked
+		r := ex.rub[n-1]
+		sn := &rubSnap{heap: flattenHeap(st.heap, r.base), pcs: append(append([]*Term{}, st.pcs...), cond)}
+		r.snaps = append(r.snaps, sn)
+	}
 	st.assume(Not(cond))
 }
 
@@ -450,4 +456,115 @@ func (ex *Exec) heldLocks(st *State) string {
 		}
 	}
 	return strings.TrimSpace(s)
+}
+
+// ---------------------------------------------------------------- run-until-blocked
+
+type rubSnap struct {
+	heap map[int]Value
+	pcs  []*Term
+}
+
+type rubCtx struct {
+	base  *Heap // fresh layer pushed at the call; everything the callee writes lives in it or in descendants
+	n0    int
+	snaps []*rubSnap
+}
+
+// flattenHeap collects the newest value of every object written in the layers from h up to and including base.
+func flattenHeap(h *Heap, base *Heap) map[int]Value {
+	out := map[int]Value{}
+	for x := h; x != nil; x = x.parent {
+		for k, v := range x.m {
+			if _, ok := out[k]; !ok {
+				out[k] = v
+			}
+		}
+		if x == base {
+			break
+		}
+	}
+	return out
+}
+
+// runUntilBlocked runs f; paths that block (channel operation, lock, select that cannot proceed in the sequentialised
+// execution) are parked at the blocking point; afterwards execution continues from the merge of the normally
+// returned state and all parked states. Returns the condition "f returned normally".
+func (ex *Exec) runUntilBlocked(st *State, f Value, site ssa.Instruction) *Term {
+	parent := st.heap
+	base := newHeap(parent)
+	st.heap = base
+	ctx := &rubCtx{base: base, n0: len(st.pcs)}
+	ex.rub = append(ex.rub, ctx)
+	ex.invokeFuncValue(st, f, nil, site)
+	ex.rub = ex.rub[:len(ex.rub)-1]
+	type part struct {
+		g    *Term
+		heap map[int]Value
+	}
+	var parts []part
+	n0 := ctx.n0
+	returned := False
+	if !st.dead() {
+		k := n0
+		if k > len(st.pcs) {
+			k = len(st.pcs)
+		}
+		g := AndN(st.pcs[k:]...)
+		returned = g
+		parts = append(parts, part{g, flattenHeap(st.heap, base)})
+	}
+	for _, sn := range ctx.snaps {
+		k := n0
+		if k > len(sn.pcs) {
+			k = len(sn.pcs)
+		}
+		parts = append(parts, part{AndN(sn.pcs[k:]...), sn.heap})
+	}
+	// rebuild the state on top of the parent heap
+	nh := newHeap(parent)
+	keys := map[int]bool{}
+	for _, p := range parts {
+		for k := range p.heap {
+			keys[k] = true
+		}
+	}
+	for k := range keys {
+		var acc Value
+		if v, ok := parent.get(k); ok {
+			acc = v
+		}
+		for i := len(parts) - 1; i >= 0; i-- {
+			v, ok := parts[i].heap[k]
+			if !ok {
+				continue
+			}
+			if acc == nil {
+				acc = v
+			} else {
+				acc = mergeValue(parts[i].g, v, acc)
+			}
+		}
+		nh.m[k] = acc
+	}
+	if len(parts) == 0 {
+		st.kill()
+		return False
+	}
+	var basePcs []*Term
+	if n0 <= len(st.pcs) && !st.dead() {
+		basePcs = st.pcs[:n0:n0]
+	} else if len(ctx.snaps) > 0 {
+		basePcs = ctx.snaps[0].pcs[:n0:n0]
+	}
+	disj := False
+	for _, p := range parts {
+		disj = Or(disj, p.g)
+	}
+	st.isDead = false
+	st.pcs = basePcs
+	st.pcMemo = nil
+	st.heap = nh
+	st.assume(disj)
+	return returned
 }
